@@ -30,6 +30,7 @@ VARIABLES t, i
 
 ScnOf(j, D) == [hosts |-> j.hosts, conts |-> j.conts, inst |-> j.inst, paths |-> j.paths,
                 data |-> j.data, kidx |-> SetOf(j.kidx), allpaths |-> j.allpaths, defects |-> D,
+                cpaths |-> [c \in DOMAIN j.cpaths |-> j.cpaths[c]],
                 ext |-> [srv |-> j.ext.srv, plc |-> j.ext.plc, sch |-> j.ext.sch,
                          sproot |-> j.ext.sproot, iorder |-> j.ext.iorder,
                          fin |-> j.ext.fin, plcp |-> j.ext.plcp,
@@ -186,9 +187,15 @@ Resync(S, pre, line, post) ==
               \* observer's record of which container a path serves: kept for the
               \* nodes that still exist and - independently of the model, which
               \* is lost here - taken over by a container whose create request
-              \* is reported successful (whatever calls it did or did not make)
+              \* is reported successful (whatever calls it did or did not make), or
+              \* whose create request has just created the node / read it as a node
+              \* of the service's own session (the take-over of _safe_create),
+              \* whatever the service's own map says
               !.claimed = [x \in HostSet(S) |->
-                 LET kept == [q \in DOMAIN pre.claimed[x] \cap DOMAIN post.nodes |-> pre.claimed[x][q]]
+                 LET took == IF x = h /\ line.ev = "call" /\ line.rk = "create" /\ line.rc \in ContSet(S)
+                                /\ ((line.op = "create" /\ line.res = "ok") \/ SawOwn(line))
+                             THEN Claim(S, pre, x, line.path, line.rc) ELSE pre.claimed[x]
+                     kept == [q \in DOMAIN took \cap DOMAIN post.nodes |-> took[q]]
                      won == IF x = h /\ line.ev = "end" /\ line.k = "create" /\ line.res = "ok"
                                /\ line.c \in ContSet(S)
                             THEN {q \in Range(CPaths(S, line.c)) \cap DOMAIN post.nodes :
@@ -373,6 +380,27 @@ PubVerdict(S, pre, line, post, explained) ==
 
 (* a trace with helper runs lies outside the statement of C17: from the first *)
 (* helper line on, the C17 clauses are reported as extension clauses          *)
+(* A service's set / delete of a foreign node on such a trace is the          *)
+(* get / delete window only if the request's OWN preceding get of that path    *)
+(* showed a node of its session; a write without that evidence stays the       *)
+(* property's violation.                                                       *)
+Windowed(pre, line) ==
+  line.ev = "call" /\
+  \A w \in Applied(line) : w.op \in {"set", "delete"} /\ Foreign(w.o, line.s) => w.path \in pre.own[line.h]
+
+OwnAfter(pre, line) ==
+  IF line.ev = "call" /\ line.op = "get"
+  THEN IF line.res = "ok" /\ line.seen = line.s THEN pre.own[line.h] \cup {line.path}
+       ELSE pre.own[line.h] \ {line.path}
+  ELSE IF line.ev = "call" THEN pre.own[line.h] ELSE {}
+
+(* who is entitled to the nodes a newerKept failure is about: {<<path, container>>} *)
+NkOf(S, pre, line) ==
+  IF line.ev = "call" /\ line.rk = "delete" /\ line.rc \in ContSet(S)
+  THEN {<<w.path, pre.claimed[line.h][w.path]>> :
+          w \in {x \in Applied(line) : x.op = "delete" /\ Stolen(S, pre, line.h, x.path, line.rc)}}
+  ELSE {}
+
 ExtName(f) ==
   CASE f = "C17.noForeign" -> "ext.kill.window"
     [] f = "C17.ephemeral" -> "ext.kill.ephemeral"
@@ -408,7 +436,7 @@ Verdict(S, pre, line, post, explained) ==
   ELSE IF line.ev \in UEvents THEN PubVerdict(S, pre, line, post, explained)
   ELSE LET v == Verdict0(S, pre, line, post, explained) IN
        IF pre.nkill = 0 THEN v
-       ELSE [fail |-> {ExtName(f) : f \in v.fail},
+       ELSE [fail |-> {IF f = "C17.noForeign" /\ ~Windowed(pre, line) THEN f ELSE ExtName(f) : f \in v.fail},
              ex |-> {IF e = "C17" THEN "ext" ELSE e : e \in v.ex}]
 
 TInit == /\ t \in DOMAIN Traces
@@ -431,8 +459,12 @@ TNext ==
          nxt == IF ok1 THEN e1.st ELSE IF ok2 THEN e2.st ELSE Resync(S1, st, line, post) IN
      /\ st' = IF line.ev = "acall" THEN [nxt EXCEPT !.adm.seen = SeenAfter(S1, st, line)]
               ELSE IF line.ev = "pcall" THEN Dirty([nxt EXCEPT !.pub.saw = SawAfter(S1, st, line)])
-              ELSE IF line.ev \in AEvents THEN nxt ELSE Dirty(nxt)
-     /\ PrintT(ToJson([tid |-> Traces[t].tid, i |-> i, fail |-> v.fail, ex |-> v.ex]))
+              ELSE IF line.ev \in AEvents THEN nxt
+              ELSE IF line.ev \in {"begin", "call", "end", "expire", "crash", "restart"}
+              THEN Dirty([nxt EXCEPT !.own[line.h] = OwnAfter(st, line)])
+              ELSE Dirty(nxt)
+     /\ PrintT(ToJson([tid |-> Traces[t].tid, i |-> i, fail |-> v.fail, ex |-> v.ex,
+                        nk |-> NkOf(S1, st, line)]))
 
 TSpec == TInit /\ [][TNext]_<<t, i, st>>
 =============================================================================
